@@ -49,6 +49,8 @@ Inductive ex :=
 | EAttr (e : ex) (name : string)               (* e.name — objects are dictionaries of their attributes (AttributeError if absent) *)
 | ECopy (e : ex)                               (* e.copy() *)
 | EJoin (e : ex)                               (* b"".join(e) *)
+| EValues (e : ex)                             (* e.values(), as a list *)
+| EDictComp (k v : ex) (x : string) (it : ex)  (* {k: v for x in it} *)
 | EUnknown (src : string).
 
 Inductive st :=
@@ -643,6 +645,35 @@ Section Eval.
     | EAttr a name => match eval ρ a with Raise x => Raise x | Ok v => attr_eval v name end
     | ECopy a => match eval ρ a with Raise x => Raise x | Ok v => copy_eval v end
     | EJoin a => match eval ρ a with Raise x => Raise x | Ok v => join_eval v end
+    | EValues a => match eval ρ a with
+                   | Raise x => Raise x
+                   | Ok (PDict d) => Ok (PList (map snd d))
+                   | Ok _ => Raise AttributeError
+                   end
+    | EDictComp k v x it =>
+        match eval ρ it with
+        | Raise e => Raise e
+        | Ok iv =>
+            match iter_items iv with
+            | Raise e => Raise e
+            | Ok items =>
+                match (fix go (l : list pv) (acc : list (string * pv)) : result (list (string * pv)) :=
+                         match l with
+                         | [] => Ok acc
+                         | i :: r => match eval (dict_set ρ x i) k with
+                                     | Raise e => Raise e
+                                     | Ok (PStr ks) => match eval (dict_set ρ x i) v with
+                                                       | Raise e => Raise e
+                                                       | Ok w => go r (dict_set acc ks w)
+                                                       end
+                                     | Ok _ => unmodelled "non-string-key"
+                                     end
+                         end) items [] with
+                | Ok d => Ok (PDict d)
+                | Raise e => Raise e
+                end
+            end
+        end
     | EUnknown src => unmodelled src
     end.
 
